@@ -192,7 +192,8 @@ impl<'a> StmtIterator<'a> {
                         .unwrap()
                         .value()
                         .expect("Expected an integer value");
-                    let value = prev_value + 1;
+                    // The test can assign to the loop variable, so this can be i64::MAX
+                    let value = prev_value.saturating_add(1);
                     if value < loop_state.max {
                         ctx.set(loop_state.variable, value);
                         self.inner_state = StmtIteratorState::StartIterateInner(loop_state.take());
